@@ -34,7 +34,17 @@ var c11Exts = []extSpec{
 	}, "x:table,strike,tasklist,deflist,footnote,typographer"},
 }
 
-var c11Alpha = core.Union(core.ABlock, core.AInline, core.AExt, []string{"'", ".", "\t", "^", "{", "}"})
+var c11Alpha = core.Union(core.ABlock, core.AInline, core.AExt, []string{"'", ".", "\t", "^", "{", "}", "go/x", "wwx"})
+
+// c11Pollute builds and uses, once per worker, differently configured instances of the same extensions (option-bearing
+// constructors, extension options passed as parser / renderer options next to the package-level extension values): "no
+// trigger syntax, no change" must hold for an ordinary instance whatever else lives in the process.
+func c11Pollute() {
+	for _, c := range c06Customs {
+		cv := &core.Conv{MD: c.mk()}
+		_, _, _ = cv.Convert([]byte("go/links www.xa.bc \"q\" -- x[^1]\n\n[^1]: n\n\n|a|\n|:-|\n|b|\n"))
+	}
+}
 
 func c11Case(s *core.Sub, base, with *core.Conv, word []byte, ext string, tmp *[]byte) uint64 {
 	o1, ok := mustConvert(s, base, word)
@@ -75,7 +85,9 @@ func runC11(r *core.Run) {
 			wordsSub(r, fmt.Sprintf("%s/base=%s", e.name, baseName),
 				fmt.Sprintf("trigger-free words: R under %s == R under %s; non-trivial = output has ≥2 tags, distinct = output digest", withName, baseName),
 				toks, nn, func(s *core.Sub, w int) func([]byte) uint64 {
-					b, x := core.NewConv(base), core.NewConv(with)
+					b := core.NewConv(base)
+					c11Pollute()
+					x := core.NewConv(with)
 					var tmp []byte
 					return func(word []byte) uint64 { return c11Case(s, b, x, word, e.name, &tmp) }
 				})
